@@ -3,8 +3,8 @@
    tokenisation, the printers' bytes, process exit and colouring are exercised by the
    correspondence run against the built binary. *)
 From Coq Require Import Lia.
-From RM Require Import C20.Model C20.Proofs.
-From RM Require Gen.C20DumpSeq C20.DumpSeq.
+From RM Require Import C20.Model C20.Proofs C20.Sinks C20.SinksProofs.
+From RM Require Gen.C20DumpSeq C20.DumpSeq Gen.C20Wiring C20.Wiring.
 Open Scope Z_scope.
 
 (* Every flag record is rejected, is the hidden --help-markdown, or has a plan.  [flags] has
@@ -199,7 +199,142 @@ Theorem c20_dump_sequence_pinned : RM.Gen.C20DumpSeq.DUMP_SEQ = RM.C20.DumpSeq.p
 Proof. exact RM.C20.DumpSeq.dump_seq_pinned. Qed.
 Print Assumptions c20_dump_sequence_pinned.
 
+(* ---- round 4: the sinks over a file system that has a state BEFORE the run (Sinks.v part 1) ----
+   fs_after m rd s0 tr = the files after the trace tr, started on the files s0, every sink opened with the
+   switches m; file_create = File::create = create + truncate, which is how main.rs opens all three sinks
+   (c20_every_sink_truncates, from the regenerated Gen/C20Wiring.v). *)
+
+(* an output file receives what standard output would, WHATEVER the path held before the run (absent, empty,
+   shorter, longer, an older report): status 0 and no broken pipe => the file is exactly the primary report *)
+Theorem c20_output_file_is_report_whatever_before : forall f e pl p rd (s0 : fsys),
+  f_help_md f = false -> decide f = Plan pl ->
+  f_output_file f = Some p -> f_cyborg f <> Some p -> f_log_file f <> Some p ->
+  snd (run f e) = 0 -> ~ pipe_broke e ->
+  fs_after file_create rd s0 (fst (run f e)) p = Some (concat (map (r_bytes rd) (p_primary pl))).
+Proof.
+  intros f e pl p rd s0 Hh Hd Ho Hc _ H0 Hp.
+  rewrite (file_after_success f e pl p rd s0 Hh H0 Hp Hd).
+  - rewrite (reports_output_file f pl p Hd Ho Hc). reflexivity.
+  - apply in_or_app. right. rewrite (proj1 (proj2 (plan_writer f pl Hd))), Ho. apply in_or_app. right. left. reflexivity.
+Qed.
+Print Assumptions c20_output_file_is_report_whatever_before.
+
+(* likewise the --cyborg file: exactly the JSON rendering, whatever it held *)
+Theorem c20_cyborg_file_is_json_whatever_before : forall f e pl c rd (s0 : fsys),
+  f_help_md f = false -> decide f = Plan pl ->
+  f_cyborg f = Some c -> f_output_file f <> Some c -> f_log_file f <> Some c ->
+  snd (run f e) = 0 -> ~ pipe_broke e ->
+  fs_after file_create rd s0 (fst (run f e)) c = Some (r_bytes rd (Json (f_pretty f))).
+Proof.
+  intros f e pl c rd s0 Hh Hd Hc Ho _ H0 Hp.
+  rewrite (file_after_success f e pl c rd s0 Hh H0 Hp Hd).
+  - rewrite (reports_cyborg_file f pl c Hd Hc Ho). cbn [map concat]. rewrite app_nil_r. reflexivity.
+  - apply in_or_app. right. rewrite (proj1 (proj2 (plan_writer f pl Hd))), Hc. left. reflexivity.
+Qed.
+Print Assumptions c20_cyborg_file_is_json_whatever_before.
+
+(* any trace, any two file systems: a path the run opens ends up the same in both *)
+Theorem c20_sink_content_independent_of_prestate : forall rd p tr (s0 s0' : fsys),
+  In (Create p) tr -> fs_after file_create rd s0 tr p = fs_after file_create rd s0' tr p.
+Proof. exact prestate_irrelevant. Qed.
+Print Assumptions c20_sink_content_independent_of_prestate.
+
+(* and a path the run does not open keeps what it held (failing runs before the File::create calls, other files) *)
+Theorem c20_unopened_path_untouched : forall m rd p tr (s0 : fsys),
+  ~ In (Create p) tr -> fs_after m rd s0 tr p = s0 p.
+Proof. exact untouched. Qed.
+Print Assumptions c20_unopened_path_untouched.
+
+(* the truncation is what the two theorems above rest on: the same trace over a longer file, opened with
+   create but without truncate, leaves the report followed by the old tail *)
+Theorem c20_truncate_needed :
+  let rd := {| r_bytes := fun _ => [7; 7]; r_prefix := fun _ _ => [] |} in
+  let s0 : fsys := fun _ => Some [1; 2; 3; 4; 5] in
+  let tr := [Create 1; Written (File 1) Human] in
+  fs_after file_create rd s0 tr 1 = Some [7; 7] /\
+  fs_after no_truncate rd s0 tr 1 = Some [7; 7; 3; 4; 5].
+Proof. exact truncate_needed. Qed.
+Print Assumptions c20_truncate_needed.
+
+(* the shapes of main_result the model takes as given, regenerated from the source on every run *)
+Theorem c20_wiring_pinned :
+  RM.Gen.C20Wiring.SINK_OPENS = RM.C20.Wiring.pinned_sink_opens /\
+  RM.Gen.C20Wiring.SYM_MERGE = RM.C20.Wiring.pinned_sym_merge /\
+  RM.Gen.C20Wiring.HTTP_ARGS = RM.C20.Wiring.pinned_http_args /\
+  RM.Gen.C20Wiring.SIMPLE_ARGS = RM.C20.Wiring.pinned_simple_args /\
+  RM.Gen.C20Wiring.CACHE_DEFAULT = RM.C20.Wiring.pinned_cache_default /\
+  RM.Gen.C20Wiring.TMP_DEFAULT = RM.C20.Wiring.pinned_tmp_default /\
+  RM.Gen.C20Wiring.FEATURE_ARMS = RM.C20.Wiring.pinned_feature_arms /\
+  RM.Gen.C20Wiring.OPTION_OVERRIDES = RM.C20.Wiring.pinned_option_overrides /\
+  RM.Gen.C20Wiring.PROCESS_ARGS = RM.C20.Wiring.pinned_process_args.
+Proof. exact RM.C20.Wiring.wiring_pinned. Qed.
+Print Assumptions c20_wiring_pinned.
+
+Theorem c20_every_sink_truncates : forall s m,
+  In (s, m) RM.C20.Wiring.code_sink_modes -> m = Some file_create.
+Proof. exact RM.C20.Wiring.every_sink_truncates. Qed.
+Print Assumptions c20_every_sink_truncates.
+
+(* ---- round 4: from the command line to the symbol supplier (Sinks.v part 2) ---- *)
+
+(* the supplier receives every --symbols-path value in command-line order followed by every positional path in
+   command-line order, and the --symbols-url values in command-line order: nothing dropped, added or reordered *)
+Theorem c20_symbol_paths_in_given_order : forall argv cache tmp t,
+  supplier_paths (supplier_of (parse_sym argv cache tmp t)) = flag_paths argv ++ positional_paths argv /\
+  supplier_urls (supplier_of (parse_sym argv cache tmp t)) = url_args argv.
+Proof. exact paths_in_given_order. Qed.
+Print Assumptions c20_symbol_paths_in_given_order.
+
+(* two paths given in the same style are searched in the order given *)
+Theorem c20_same_style_order_preserved : forall pre mid post a b cache tmp t,
+  let argv1 := pre ++ ASymbolsPath a :: mid ++ ASymbolsPath b :: post in
+  let argv2 := pre ++ APositional a :: mid ++ APositional b :: post in
+  (exists l1 l2 l3, supplier_paths (supplier_of (parse_sym argv1 cache tmp t)) = l1 ++ a :: l2 ++ b :: l3) /\
+  (exists l1 l2 l3, supplier_paths (supplier_of (parse_sym argv2 cache tmp t)) = l1 ++ a :: l2 ++ b :: l3).
+Proof. exact same_style_order. Qed.
+Print Assumptions c20_same_style_order_preserved.
+
+(* the symbols of a module come from the FIRST path, in that order, that has them *)
+Theorem c20_first_given_path_wins : forall has argv p,
+  store_used has argv = Some p <->
+  exists before after, flag_paths argv ++ positional_paths argv = before ++ p :: after /\
+  has p = true /\ forall q, In q before -> has q = false.
+Proof. exact first_given_path_wins. Qed.
+Print Assumptions c20_first_given_path_wins.
+
+(* which supplier is built, and where --symbols-cache / --symbols-tmp / their defaults and the timeout go *)
+Theorem c20_supplier_kind : forall c,
+  (sc_symbols_url c <> [] -> exists cache tmp,
+      supplier_of c = HttpSupplier (merged_paths c) (sc_symbols_url c) cache tmp (sc_timeout c) /\
+  cache = match sc_symbols_cache c with Some p => GivenDir p | None => TempDirCache end /\
+  tmp = match sc_symbols_tmp c with Some p => GivenDir p | None => TempDir end) /\
+  (sc_symbols_url c = [] -> merged_paths c <> [] -> supplier_of c = SimpleSupplier (merged_paths c)) /\
+  (sc_symbols_url c = [] -> merged_paths c = [] -> supplier_of c = NoSupplier).
+Proof. exact supplier_kind. Qed.
+Print Assumptions c20_supplier_kind.
+
 (* ---- non-vacuity ---- *)
+Example c20_nonvacuous_prestate :
+  let f := {| f_human := false; f_json := true; f_cyborg := None; f_dump := false; f_help_md := false;
+              f_pretty := false; f_brief := false; f_features := StableBasic; f_recover := false;
+              f_output_file := Some 1; f_log_file := None; f_verbose_off := false |} in
+  let e := {| e_create := fun _ => IoOk; e_read := true; e_process := true; e_write := fun _ _ => IoOk; e_partial := fun _ _ => false |} in
+  let rd := {| r_bytes := fun r => match r with Json false => [10; 11] | _ => [0] end; r_prefix := fun _ _ => [] |} in
+  let s0 : fsys := fun p => if p =? 1 then Some [90; 91; 92; 93; 94; 95] else None in
+  snd (run f e) = 0 /\
+  fs_after file_create rd s0 (fst (run f e)) 1 = Some [10; 11] /\
+  fs_after no_truncate rd s0 (fst (run f e)) 1 = Some [10; 11; 92; 93; 94; 95].
+Proof. repeat split. Qed.
+
+Example c20_nonvacuous_symbol_order :
+  let argv := [AOther; APositional 3; ASymbolsPath 2; APositional 1; ASymbolsUrl 9; ASymbolsPath 3] in
+  supplier_paths (supplier_of (parse_sym argv None None 1000)) = [2; 3; 3; 1] /\
+  supplier_urls (supplier_of (parse_sym argv None None 1000)) = [9] /\
+  store_used (fun p => negb (p =? 2)) argv = Some 3 /\
+  store_used (fun _ => true) [APositional 3; APositional 1] = Some 3.
+Proof. repeat split. Qed.
+
+
 Example c20_nonvacuous_cyborg :
   let f := {| f_human := false; f_json := false; f_cyborg := Some 2; f_dump := false; f_help_md := false;
               f_pretty := true; f_brief := true; f_features := StableBasic; f_recover := false;
